@@ -416,7 +416,7 @@ def enum_cases(cls):
                 "between_foreign": lambda tt: tt.a.between(u.a, 5), "in_foreign": lambda tt: u.a.isin([1, 2]), "not_foreign": lambda tt: P.Not(u.a == 1),
                 "case_own": lambda tt: P.Case().when(tt.a == 1, "one").else_("other"), "case_foreign": lambda tt: P.Case().when(u.a == 1, "one").else_("other"),
                 "neg_foreign": lambda tt: -u.a, "tuple_foreign": lambda tt: P.Tuple(tt.a, u.a), "aliased_criterion_foreign": lambda tt: (u.a == 1).as_("f")}
-        for stmt in ("select", "insert", "update", "delete", "update_join", "insert_aliased_own", "update_join_using", "insert_after_star", "update_after_star"):
+        for stmt in ("select", "insert", "update", "delete", "update_join", "insert_aliased_own", "update_join_using", "insert_after_star", "update_after_star", "insert_select"):
             for an_, mk in args.items():
                 def thunk(stmt=stmt, an_=an_, mk=mk):
                     tt = t
@@ -424,6 +424,8 @@ def enum_cases(cls):
                         q = Q.from_(t).select(t.a)
                     elif stmt == "insert":
                         q = Q.into(t).insert(1)
+                    elif stmt == "insert_select":
+                        q = Q.into(t).from_(u).select(u.a)  # u feeds the SELECT: RETURNING can only name the rows written to t
                     elif stmt == "update":
                         q = Q.update(t).set(t.a, 1)
                     elif stmt == "delete":
@@ -455,7 +457,7 @@ def enum_cases(cls):
                         return [(mksig("returning", "false_rejection", stmt, an_), "returning(%s) on %s raised %s" % (an_, stmt, r[1]))]
                     if exp is not None and (r[0] == "ok" or r[1] != exp):
                         got = r[1] if r[0] == "raised" else "SQL " + _sql(r[1], cls)[:120]
-                        return [(mksig("returning", "missed" if r[0] == "ok" else "wrong_type", "non_dml" if stmt == "select" else "dml", an_ if stmt != "select" else ("no_field" if an_ in ("const", "null", "star") else "field")),
+                        return [(mksig("returning", "missed" if r[0] == "ok" else "wrong_type", "non_dml" if stmt == "select" else "dml", (an_ + ("|on_insert_select" if stmt == "insert_select" else "")) if stmt != "select" else ("no_field" if an_ in ("const", "null", "star") else "field")),
                                  "returning(%s) on %s should raise %s, got %s" % (an_, stmt, exp, got))]
                     return []
 
